@@ -19,11 +19,11 @@ Proof. exact GenProofs.no_panic_refuted_witness. Qed.
 (* proved, for every schema environment, every struct type from which no vector or fixed array is reachable
    (safe_ty: the sites of the recorded findings excluded), every target and EVERY byte string: decoding yields
    a value or an error - no panic, no over-allocation, no fuel exhaustion *)
-Theorem C05_total_without_lists : forall e n sid prior bs,
+Theorem C05_total_without_lists_partial : forall e n sid prior bs,
   safe_ty n e (TStruct sid) = true -> (tneed n e (TStruct sid) <= 64)%nat ->
   total_out (decode_into e sid prior bs).
 Proof. exact TotalProofs.decode_total. Qed.
-Theorem C05_no_panic_without_lists : forall e n sid prior bs,
+Theorem C05_no_panic_without_lists_partial : forall e n sid prior bs,
   safe_ty n e (TStruct sid) = true -> ok_out (decode_into e sid prior bs).
 Proof. exact TotalProofs.decode_no_panic. Qed.
 
@@ -60,8 +60,8 @@ Theorem C05_skip_depth_limit : forall fuel ty bs, (ty = tMAP \/ ty = tLIST \/ ty
 Proof. exact GenProofs.skip_depth_limit. Qed.
 
 Print Assumptions C05_total_refuted.
-Print Assumptions C05_total_without_lists.
-Print Assumptions C05_no_panic_without_lists.
+Print Assumptions C05_total_without_lists_partial.
+Print Assumptions C05_no_panic_without_lists_partial.
 Print Assumptions C05_fuel_sufficient.
 Print Assumptions C05_skip_fuel_sufficient.
 Print Assumptions C05_code_schemas_fuel.
